@@ -74,3 +74,8 @@ add("C10", "model_checking",
     "A 3-message history (proposed header, precommit majority, prevote at the next height under a changed validator set) is delivered to a real Mirror on the shipped in-memory stores; the process stops right after the k-th store write of a handler for every k (the writing goroutine is frozen for ever), or cleanly after any message; a new Mirror starts on the same stores, everything sent so far is delivered again and the history continues. Restart must succeed without panic, the position must not be behind the durable record, resumed views must contain only signatures that verify under the height's prescribed set, and the final committed chain, position, validator set and votes must equal the run without a stop.",
     "Bounds: one stop per run, 2 validators per set, 3 messages; store calls atomic (no torn writes); deterministic cooperative schedule. The state machine's restart (action store, finalizations) is C02's subject; SQLite stores outside.",
     "symbolic execution of go/ssa + SMT; crash point enumerated as a choice, real mirror+kernel threads", "§5 C10")
+
+add("C15", "model_checking",
+    "The real SimpleHashScheme.Block/PubKeys/VotePowers and SimpleSignatureScheme.Write*SigningContent run on pairs of symbolic headers / vote targets (byte fields 0-2 symbolic bytes incl. nil vs empty, integers < 1000, 0-2 validators, 0-2 commit-proof entries with 0-2 signatures): BLAKE2b is replaced by an injective recording hasher (the digest is the written byte stream), so 'equal hash' means 'equal serialised bytes'; the solver shows equal bytes imply equality of every field other than Hash, independence from the stored Hash and from map iteration order, and that prevote/precommit/proposal sign bytes are pairwise distinct across kind, height, round and hash.",
+    "Assumes BLAKE2b collision resistance (modelled as injectivity). fmt's %x/%d/%s are modelled exactly for symbolic operands (validated against real fmt in native replay). Field sizes above 2 bytes and integers >= 1000 are outside. Observation (not claimed as violation): proposal sign bytes do not cover validator sets or the commit proof.",
+    "symbolic execution of go/ssa + SMT; hash replaced by an injective function", "§5 C15")
